@@ -73,7 +73,7 @@ CASE_CPU_SECONDS_QUICK = 120.0
 KINDS = ('in', 'inb', 'inmap', 'inbmap', 'inmix', 'inbmix', 'insortx',
          'inbvars', 'ingd', 'ingdx', 'inbgd', 'inempty', 'inbempty', 'if2', 'with', 'withonly', 'let', 'if', 'try', 'tryh',
          'tryf', 'fin', 'raise', 'sub', 'subtuple', 'subclient', 'tree', 'treex', 'treedm', 'treedp',
-         'treeed', 'e-tryh', 'e-tryh0', 'e-try', 'e-tryelse', 'e-tryf',
+         'treeed', 'subnone', 'innext', 'inprev', 'e-tryh', 'e-tryh0', 'e-try', 'e-tryelse', 'e-tryf',
          'e-fin', 'e-in', 'e-inb', 'e-inmap', 'e-inelse', 'e-with', 'e-let',
          'e-if', 'e-ifelse', 'e-raise', 'e-sub')
 LEAF_ONLY = ('withonly', 'tree', 'treex', 'treedm', 'treedp', 'treeed',
@@ -257,6 +257,21 @@ class Builder:
             ns['ca%d' % k] = ['obj', {'ca': ['lit', 1]}]
             ns['cb%d' % k] = ['obj', {'cb': ['lit', 2]}]
             n = ['var', E('sub%d((ca%d, cb%d), _)' % (k, k, k)), []]
+        elif kind == 'subnone':
+            # ... with a client path one of whose steps is None
+            ns['sub%d' % k] = ['tmpl', inner, {'sd%d' % k: ['lit', 1]}]
+            ns['nn%d' % k] = ['lit', None]
+            ns['cb%d' % k] = ['obj', {'cb': ['lit', 2]}]
+            n = ['var', E('sub%d((nn%d, cb%d, nn%d), _)' % (k, k, k, k)), []]
+        elif kind in ('innext', 'inprev'):
+            # the stand-alone next / previous forms: the section is rendered
+            # once when there is an adjacent batch (else the else section)
+            ns['seq%d' % k] = ['probe', 'seq%d' % k, [
+                'seq', 'list', [['obj', {'e': ['lit', i]}]
+                                for i in range(12)]]]
+            opts = [['size', '10'], ['next', None]] if kind == 'innext' \
+                else [['size', '10'], ['start', '11'], ['previous', None]]
+            n = ['in', N('seq%d' % k), inner, [T('empty')], opts]
         elif kind == 'subclient':
             # ... with a single client object and a keyword argument
             ns['sub%d' % k] = ['tmpl', inner, {'sd%d' % k: ['lit', 1]}]
